@@ -9,6 +9,7 @@ import (
 	"fmt"
 	"os"
 	"path/filepath"
+	"sync/atomic"
 
 	"github.com/hashicorp/raft-wal/types"
 	"go.etcd.io/bbolt"
@@ -37,14 +38,16 @@ var (
 // implications.
 type BoltMetaDB struct {
 	dir string
-	db  *bbolt.DB
+	// db is read by Get/SetStable concurrently with Close (the WAL only
+	// serialises Close with log mutations) so it must be accessed atomically.
+	db atomic.Pointer[bbolt.DB]
 }
 
 func (db *BoltMetaDB) ensureOpen(dir string) error {
 	if db.dir != "" && db.dir != dir {
 		return fmt.Errorf("can't load dir %s, already open in dir %s", dir, db.dir)
 	}
-	if db.db != nil {
+	if db.db.Load() != nil {
 		return nil
 	}
 
@@ -55,7 +58,7 @@ func (db *BoltMetaDB) ensureOpen(dir string) error {
 		if err != nil {
 			return fmt.Errorf("failed to open %s: %w", FileName, err)
 		}
-		db.db = bb
+		db.db.Store(bb)
 		db.dir = dir
 		return nil
 	}
@@ -156,7 +159,7 @@ func (db *BoltMetaDB) Load(dir string) (types.PersistentState, error) {
 		return state, err
 	}
 
-	tx, err := db.db.Begin(false)
+	tx, err := db.db.Load().Begin(false)
 	if err != nil {
 		return state, err
 	}
@@ -183,7 +186,8 @@ func (db *BoltMetaDB) Load(dir string) (types.PersistentState, error) {
 // time and it will never be called concurrently with Load however it may be
 // called concurrently with Get/SetStable operations.
 func (db *BoltMetaDB) CommitState(state types.PersistentState) error {
-	if db.db == nil {
+	bb := db.db.Load()
+	if bb == nil {
 		return ErrUnintialized
 	}
 
@@ -192,7 +196,7 @@ func (db *BoltMetaDB) CommitState(state types.PersistentState) error {
 		return fmt.Errorf("failed to encode persisted state: %w", err)
 	}
 
-	tx, err := db.db.Begin(true)
+	tx, err := bb.Begin(true)
 	if err != nil {
 		return err
 	}
@@ -209,11 +213,12 @@ func (db *BoltMetaDB) CommitState(state types.PersistentState) error {
 // GetStable returns a value from stable store or nil if it doesn't exist. May
 // be called concurrently by multiple threads.
 func (db *BoltMetaDB) GetStable(key []byte) ([]byte, error) {
-	if db.db == nil {
+	bb := db.db.Load()
+	if bb == nil {
 		return nil, ErrUnintialized
 	}
 
-	tx, err := db.db.Begin(false)
+	tx, err := bb.Begin(false)
 	if err != nil {
 		return nil, err
 	}
@@ -235,11 +240,12 @@ func (db *BoltMetaDB) GetStable(key []byte) ([]byte, error) {
 // SetStable stores a value from stable store. May be called concurrently with
 // GetStable.
 func (db *BoltMetaDB) SetStable(key []byte, value []byte) error {
-	if db.db == nil {
+	bb := db.db.Load()
+	if bb == nil {
 		return ErrUnintialized
 	}
 
-	tx, err := db.db.Begin(true)
+	tx, err := bb.Begin(true)
 	if err != nil {
 		return err
 	}
@@ -260,10 +266,9 @@ func (db *BoltMetaDB) SetStable(key []byte, value []byte) error {
 
 // Close implements io.Closer
 func (db *BoltMetaDB) Close() error {
-	if db.db == nil {
+	bb := db.db.Swap(nil)
+	if bb == nil {
 		return nil
 	}
-	err := db.db.Close()
-	db.db = nil
-	return err
+	return bb.Close()
 }
